@@ -48,6 +48,18 @@ Theorem C02_parent_frame_change_preserves_density : forall j2 (chs : list chain)
 Proof. exact align_left_change_preserves_density. Qed.
 Print Assumptions C02_parent_frame_change_preserves_density.
 
+(* massless final particles (photon: helicities restricted by `spins: [-1, 1]`): the drop-out theorems above sum over ALL
+   helicities, a restricted helicity set is preserved only by an alignment that does not mix helicities.  An alignment that is a
+   pure z rotation (beta = 0: the rotation between two helicity frames of a massless particle is a rotation about its momentum)
+   multiplies each helicity component by a phase, so any sub-list S of helicities keeps its summed squared modulus; 2j <= 8.
+   That the CODE's aligned beta vanishes for a massless particle under every convention is decided on the code's values (layer
+   massless_alignment of the check): it fails when the reference is the canonical frame (align_ref: center_mass before the repair). *)
+Theorem C02_massless_alignment_is_phase : forall j2 alpha gamma (X : Z -> C) (S : list Z),
+  (0 <= j2 <= 8)%Z -> (forall f, In f S -> In f (m_range j2)) ->
+  zsum S (fun f => Cnorm2 (D_apply_right j2 alpha 0 gamma X f)) = zsum S (fun f => Cnorm2 (X f)).
+Proof. exact z_rotation_alignment_restricted. Qed.
+Print Assumptions C02_massless_alignment_is_phase.
+
 (* Not proved: that the code's alignment elements for two conventions differ by a common G (a statement about
    cal_angle's SU(2) bookkeeping) - tied by the certified comparison of the code under every convention; and
    products over several spinning final particles are stated one index at a time. *)
